@@ -159,7 +159,31 @@ def directed_programs():
         ("fixed-dict-opcode", (A.MARK, A.SBU("k"), A.BININT1(1), A.SBU("j"), A.NONE, A.DICT, A.STOP)),
         ("fixed-memo-newobj-twice", (g("vp_sink", "K"), A.EMPTY_TUPLE, A.NEWOBJ, A.BINPUT(0), A.EMPTY_DICT, A.SBU("a"),
                                       A.BININT1(1), A.SETITEM, A.BUILD, A.BINGET(0), A.TUPLE2, A.STOP)),
-    ]
+    ] + batched_programs()
+
+
+def batched_programs():
+    """Containers filled by several batch opcodes (what the pickler emits past 1000 items, and what a
+    crafted pickle may do at will): two/three ADDITEMS / APPENDS / SETITEMS batches, with repeats."""
+    A = asm
+    words = [A.SBU(w) for w in ("alpha", "beta", "gamma", "delta", "epsilon", "zeta", "eta", "theta")]
+    ints = [A.BININT1(i) for i in range(1, 9)]
+    out = []
+    for tag, el in (("str", words), ("int", ints), ("mixed", [words[0], ints[0], words[1], A.NONE, ints[3], words[2]])):
+        out.append((f"set-2batches-{tag}", (A.EMPTY_SET, A.MARK, el[0], A.ADDITEMS, A.MARK, *el[1:5], A.ADDITEMS, A.STOP)))
+        out.append((f"set-3batches-{tag}", (A.EMPTY_SET, A.MARK, *el[0:2], A.ADDITEMS, A.MARK, *el[2:4], A.ADDITEMS,
+                                           A.MARK, *el[4:6], A.ADDITEMS, A.STOP)))
+        out.append((f"set-2batches-repeat-{tag}", (A.EMPTY_SET, A.MARK, *el[0:3], A.ADDITEMS, A.MARK, el[1], *el[3:6], el[0],
+                                                  A.ADDITEMS, A.STOP)))
+        out.append((f"list-2batches-{tag}", (A.EMPTY_LIST, A.MARK, *el[0:2], A.APPENDS, A.MARK, *el[2:6], A.APPENDS, A.STOP)))
+        out.append((f"list-append-then-batch-{tag}", (A.EMPTY_LIST, el[0], A.APPEND, A.MARK, *el[1:5], A.APPENDS, el[5], A.APPEND, A.STOP)))
+        out.append((f"dict-2batches-{tag}", (A.EMPTY_DICT, A.MARK, words[0], el[0], A.SETITEMS, A.MARK, words[1], el[1], words[2], el[2],
+                                            words[3], el[3], A.SETITEMS, A.STOP)))
+        out.append((f"dict-2batches-rekey-{tag}", (A.EMPTY_DICT, A.MARK, words[0], el[0], words[1], el[1], A.SETITEMS, A.MARK,
+                                                  words[0], el[2], words[2], el[3], words[1], el[4], A.SETITEMS, A.STOP)))
+    out.append(("set-in-memo-2batches", (A.EMPTY_SET, A.BINPUT(0), A.MARK, words[0], A.ADDITEMS, A.BINGET(0), A.MARK, words[1], words[2],
+                                         words[3], A.ADDITEMS, A.TUPLE2, A.STOP)))
+    return out
 
 
 def torch_pickles(ctx, n):
